@@ -20,6 +20,16 @@ OPERANDS = [
 ]
 
 
+EXTRA_EXPONENTS = [
+    ("negnegparen", ("neg", ("paren", ("neg", ("int", 2))))),
+    ("negparenneg3", ("neg", ("paren", ("neg", ("int", 3))))),
+    ("parensum", ("paren", ("bin", "+", ("int", 1), ("int", 1)))),
+    ("parendiff", ("paren", ("bin", "-", ("int", 3), ("int", 1)))),
+    ("parenvar", ("paren", ("var", "n"))),
+    ("negparenvar", ("neg", ("paren", ("var", "b")))),
+]
+
+
 def table_type(op, lt, rt, rexpr):
     """Transcription of docs/language/reference/numeric_semantics.md."""
     if op in CMPS:
@@ -70,6 +80,12 @@ def shapes(depth2):
             if op == "**" and ln.startswith("neg") and le[0] == "neg":
                 continue  # `-3 ** 2`: unary minus next to ** is not fixed by the docs
             out.append(("d1|%s|%s|%s" % (op, ln, rn), mk(op, le, re_)))
+    # exponents that evaluate to a non-negative int but are not literals: the table says float, in every phase
+    for (ln, le, lt) in OPERANDS:
+        if le[0] == "neg":
+            continue
+        for rn, re_ in EXTRA_EXPONENTS:
+            out.append(("d1|**|%s|%s" % (ln, rn), mk("**", le, re_)))
     if depth2:
         base = [o for o in OPERANDS if o[0] in ("intlit", "floatlit", "intvar", "floatvar", "negintlit", "intlit2")]
         for op1, op2 in itertools.product(ARITH + ["<", "=="], ARITH + ["<", "=="]):
